@@ -384,7 +384,7 @@ fn c07(quick: bool) -> Vec<Harness> {
         v.push(ops_harness(&format!("{a:?}+ReadVec-sq1-full"), "C07", cfg, bounds(d(9, 10), d(2, 3), 4)));
     }
     // The listening descriptor itself is direct: what it accepts must be direct too.
-    for k in [Accept, AcceptNoAddr, MultishotAccept] {
+    for k in [Accept, AcceptNoAddr, MultishotAccept, ToFd] {
         for sq in [1u32, 4] {
             let mut cfg = drop_cfg("C07", vec![k]);
             cfg.sq = sq;
